@@ -30,6 +30,7 @@ const (
 	tRunning
 	tParked
 	tDone
+	tLockWait // waits for a program mutex: not eligible until some mutex is released
 )
 
 // Task is one goroutine of the system under test (or of the harness).
@@ -70,6 +71,11 @@ type Sim struct {
 	last     int // last task run (for the default policy)
 	schedGid uint64
 	stalling int32
+	// Deadlock describes the tasks found waiting for program mutexes when the
+	// run ended because nothing could happen any more.
+	Deadlock string
+	// per-mutex bookkeeping of the simulated lock waits (see mutex.go)
+	pendingW map[uintptr]int
 	// StallFilter, when set, restricts injected stalls to tasks parked with a
 	// function whose name contains it on their stack (a slow component
 	// rather than a uniformly slow machine).
@@ -228,16 +234,18 @@ func Yield(site int) {
 		raceEnable()
 		return
 	}
-	if t.depth > 0 {
-		raceEnable()
-		return
-	}
 	s.park(t, site)
 	raceEnable()
 }
 
 //go:norace
-func (s *Sim) park(t *Task, site int) {
+func (s *Sim) park(t *Task, site int) { s.parkAs(t, site, tParked) }
+
+// parkAs parks the task in state st (tParked: eligible at once; tLockWait:
+// eligible after the next release of a program mutex).
+//
+//go:norace
+func (s *Sim) parkAs(t *Task, site int, st int32) {
 	for {
 		if s.tearing || t.kill {
 			t.state = tDone
@@ -257,7 +265,8 @@ func (s *Sim) park(t *Task, site int) {
 			t.stallOK = callerMatches(s.StallFilter)
 		}
 		s.mu.Lock()
-		t.state = tParked
+		t.state = st
+		st = tParked // a later round of this loop (after a stall) is an ordinary yield
 		t.site = int32(site)
 		s.mu.Unlock()
 		select {
@@ -471,6 +480,12 @@ func (s *Sim) Run() string {
 				tm.Stop()
 			case <-tm.C:
 				s.StopReason = StopDeadline
+				if d := s.lockWaiters(); d != "" {
+					// nothing became eligible for ten simulated minutes while
+					// tasks wait for program mutexes that nobody releases
+					s.Deadlock = d
+					lastDeadlock = d
+				}
 				return StopDeadline
 			}
 			continue
@@ -555,7 +570,7 @@ func (s *Sim) Teardown() {
 		s.mu.Lock()
 		for i := 0; i < s.ntasks; i++ {
 			t := s.tasks[i]
-			if t.state == tParked {
+			if t.state == tParked || t.state == tLockWait {
 				t.state = tRunning
 				t.kill = true
 				select {
